@@ -22,6 +22,7 @@ Section ObjMode.
   Variable ro : ver -> list (ustring * ustring) -> bool -> list (ustring * jvalue) -> result pval.
   Variable P : ustring -> bool.
   Hypothesis Hflip : vr_ref_flip_unreg vr = true.
+  Hypothesis Hnoobs : forall vv, P (obs_tag vv) = false.
   Hypothesis Hrcm : rc_mode rc P.
 
   Variable c : cls.
@@ -63,7 +64,7 @@ Section ObjMode.
       { destruct Hj as [[Hjp Hne] | Hnone].
         - assert (Hkp : kind_proved vr P (skind sl) = true).
           { apply orb_true_iff in Hkind. destruct Hkind as [Hk | Hk]; auto. apply ustr_eqb_eq in Hk. contradiction. }
-          eapply (clean_kind_mode vr w rc rp ro P Hflip Hrcm); eauto.
+          eapply (clean_kind_mode vr w rc rp ro P Hflip Hnoobs Hrcm); eauto.
         - (* a default: fixed string, fresh identifier or constant boolean -- kinds whose cleaning ignores the mode *)
           unfold default_value in Ed. rewrite Hnone in Ed.
           destruct (sdef sl) eqn:Edf.
@@ -333,7 +334,7 @@ Section RunMode.
         destruct (existsb (fun p => amem p S0) (cidcontrib c)); [| inv Hpost; exact Hh].
         destruct (ctype c); try discriminate. inv Hpost. exact Hh. }
       subst hc.
-      pose proof (cg_mode vr ev w pattern_ok selectors_ok rc rp ro (nestable w ids) Hflip Hrcm c interop vrf Hnd Hslots
+      pose proof (cg_mode vr ev w pattern_ok selectors_ok rc rp ro (nestable w ids) Hflip (nestable_no_tag w ids) Hrcm c interop vrf Hnd Hslots
                     a a' (S f) kw1 _ _ _ Hp1 Hcg) as Hcg'.
       assert (Hgoal : (match cinit c with
                        | INone | IObservedDataWarn | IBundleObjects =>
